@@ -22,9 +22,10 @@ def c47_runs(tier):
     if quick:
         # n=2: beyond (not far beyond) the factors in the quick tier; the long programs cost ~30k executions per caller
         add(2, 'pool', 'qqqq', caller='ext', budget=120)
-        add(2, 'sets', 'B3q', caller='ext', budget=120)
+        add(2, 'ts', 'B3q', caller='ext', budget=120)
         add(2, 'ctsh', 'B3q', caller='pool', budget=120)
     else:
+        add(2, 'sets', 'B3q', budget=400)
         for caller in ('ext', 'pool'):
             add(2, 'pool', 'qqqqqqq', caller=caller, budget=400)
             add(2, 'sets', 'qB3qB2q', caller=caller, budget=600)
